@@ -387,6 +387,15 @@ func (b *BabbageTransactionBody) UnmarshalCBOR(cborData []byte) error {
 	return nil
 }
 
+func (b *BabbageTransactionBody) MarshalCBOR() ([]byte, error) {
+	// Return the original CBOR if available so that re-encoding a decoded
+	// object reproduces the exact bytes it was decoded from
+	if b.Cbor() != nil {
+		return b.Cbor(), nil
+	}
+	return cbor.EncodeGeneric(b)
+}
+
 func (b *BabbageTransactionBody) Id() common.Blake2b256 {
 	if b.hash == nil {
 		tmpHash := common.Blake2b256Hash(b.Cbor())
